@@ -117,6 +117,8 @@ def log2Strict (n : Nat) : Option Nat :=
 /-- `validate_fri_proof_shape` -/
 def validateShape (proof : Proof) (inst : Instance) (p : FriParams) : Verdict := Id.run do
   let capHeight := p.config.capHeight
+  -- F-C18-5 repaired in /repo: one commit-phase cap per reduction step
+  if proof.commitCaps.length ≠ p.arityBits.length then return .reject "shape"
   for cap in proof.commitCaps do
     -- `cap.len() == 1 << cap_height` (F-C18-1 repaired: no `MerkleCap::height()` panic any more)
     if cap.length ≠ 2 ^ capHeight then return .reject "shape"
